@@ -1,6 +1,7 @@
 package props
 
 import (
+	"bufio"
 	"fmt"
 	"strings"
 	"testing"
@@ -492,7 +493,178 @@ func c13MisuseRun(c c13MisuseCase) Verdict {
 	return Verdict{NonTrivial: true, Classes: []string{"misuse_" + c.Kind}}
 }
 
+// ---- a transport without buffering, a client that reads after it has written ----
+
+type c13PipeCase struct {
+	PerRcpt   bool `json:"per_rcpt"`
+	NRcpt     int  `json:"nrcpt"`      // 1..3 accepted recipients (a@x, b@x, a@x)
+	ReadLimit int  `json:"read_limit"` // octets the backend reads before it returns (-1 = the whole message)
+	RetErr    bool `json:"ret_err"`
+	SetFirst  bool `json:"set_first"` // per-recipient backend: a status for the first recipient is set before returning
+	BDAT      bool `json:"bdat"`
+	BodyLines int  `json:"body_lines"`
+}
+
+// c13PipeRun: client and server are connected by a transport that buffers
+// nothing (every Write waits for the peer's Read: net.Pipe), and the client is
+// a sequential one: it writes the whole message and only then reads the
+// replies. A server that starts to answer while octets of the message are
+// still outstanding can never finish its write, and the client never its own:
+// "never deadlocks" forbids that, however early the backend made up its mind.
+func c13PipeRun(c c13PipeCase) Verdict {
+	addrs := []string{"a@x", "b@x", "a@x"}[:c.NRcpt]
+	plan := harness.DataPlan{Read: harness.ReadPlan{Limit: c.ReadLimit}}
+	if c.RetErr {
+		plan.Result = harness.Decision{Kind: "smtp", Code: 552, Enh: [3]int{5, 3, 4}, Msg: "return-value-error"}
+	}
+	if c.PerRcpt && c.SetFirst {
+		plan.Status = []harness.StatusCall{{Rcpt: addrs[0], D: harness.Decision{Kind: "smtp", Code: 550, Enh: [3]int{5, 2, 0}, Msg: "status-call-0"}}}
+	}
+	r := harness.NewRig(harness.Config{LMTP: true}, harness.Script{LMTPSession: c.PerRcpt, Data: []harness.DataPlan{plan}})
+	cl, sv := r.L.Dial()
+	cl.SetSynchronous(true)
+	sv.SetSynchronous(true)
+	msg := strings.Repeat("a line of the message, forty octets long\r\n", c.BodyLines)
+	var finals []harness.Reply
+	var clientErr string
+	done := make(chan struct{})
+	go func() {
+		defer func() {
+			r.Hub.Lock()
+			close(done)
+			r.Hub.Unlock()
+			r.Hub.Broadcast()
+		}()
+		br := bufio.NewReader(cl)
+		reply := func() (harness.Reply, bool) {
+			var raw []byte
+			for {
+				l, err := br.ReadBytes('\n')
+				raw = append(raw, l...)
+				if err != nil {
+					clientErr = "read: " + err.Error()
+					return harness.Reply{}, false
+				}
+				if len(l) >= 4 && l[3] == ' ' {
+					break
+				}
+			}
+			rs, err := harness.ParseReplies(raw)
+			if err != nil || len(rs) != 1 {
+				clientErr = fmt.Sprintf("reply syntax: %v (%s)", err, q(raw))
+				return harness.Reply{}, false
+			}
+			return rs[0], true
+		}
+		step := func(line string, want int) bool {
+			if _, err := cl.Write([]byte(line)); err != nil {
+				clientErr = "write: " + err.Error()
+				return false
+			}
+			rp, ok := reply()
+			if ok && rp.Code != want {
+				clientErr = fmt.Sprintf("%q answered %s", line, rp)
+				return false
+			}
+			return ok
+		}
+		if _, ok := reply(); !ok {
+			return
+		}
+		if !step("LHLO cli\r\n", 250) || !step("MAIL FROM:<s@x>\r\n", 250) {
+			return
+		}
+		for _, a := range addrs {
+			if !step("RCPT TO:<"+a+">\r\n", 250) {
+				return
+			}
+		}
+		var werr error
+		if c.BDAT {
+			_, werr = cl.Write([]byte(fmt.Sprintf("BDAT %d LAST\r\n%s", len(msg), msg)))
+		} else {
+			if !step("DATA\r\n", 354) {
+				return
+			}
+			// the whole message, then - and only then - the replies
+			_, werr = cl.Write([]byte(msg + ".\r\n"))
+		}
+		if werr != nil {
+			clientErr = "write of the message: " + werr.Error()
+			return
+		}
+		for range addrs {
+			rp, ok := reply()
+			if !ok {
+				return
+			}
+			finals = append(finals, rp)
+		}
+		step("QUIT\r\n", 221)
+	}()
+	finished, stuck := false, false
+	r.Hub.WaitUntil(func() bool {
+		select {
+		case <-done:
+			finished = true
+			return true
+		default:
+		}
+		if cl.BlockedInWriteLocked() && sv.BlockedInWriteLocked() {
+			stuck = true
+			return true
+		}
+		return false
+	}, harness.Watchdog)
+	var stacks []string
+	if stuck {
+		stacks = harness.BlockedStacks(harness.ServerGoroutines())
+	}
+	if !finished {
+		cl.Abort()
+		<-done
+	}
+	cl.Close()
+	r.B.ReleaseAll()
+	r.Shutdown()
+	v := Verdict{NonTrivial: c.ReadLimit >= 0, Classes: []string{"unbuffered_transport"}}
+	if c.ReadLimit >= 0 {
+		v.Classes = append(v.Classes, "backend_returns_before_end_of_message")
+	}
+	if c.BDAT {
+		v.Classes = append(v.Classes, "via_bdat")
+	}
+	if stuck {
+		st := ""
+		for _, g := range stacks {
+			if strings.Contains(g, "(*End).Write") {
+				st = g
+			}
+		}
+		return failf("deadlock", "unbuffered transport, sequential client: the client is blocked writing the message (the server does not read it) and the server is blocked writing a reply (the client does not read yet): neither will ever get on\n%s", trimTo(st, 1500))
+	}
+	if !finished {
+		return Verdict{Inconclusive: "watchdog in the sequential client"}
+	}
+	if p := r.Log.Panicked(); p != "" {
+		return failf("panic", "server logged a panic: %s", p)
+	}
+	if clientErr != "" {
+		return failf("conversation", "sequential client over an unbuffered transport: %s (final replies so far %v)", clientErr, codes(finals))
+	}
+	if len(finals) != len(addrs) {
+		return failf("reply-count", "%d final replies for %d recipients", len(finals), len(addrs))
+	}
+	for i, rp := range finals {
+		if !strings.Contains(strings.Join(rp.Lines, "\n"), "<"+addrs[i]+">") {
+			return failf("attribution", "final reply %d (%s) does not name recipient %d <%s>", i, rp, i, addrs[i])
+		}
+	}
+	return v
+}
+
 var (
+	c13Pipe   *subCheck[c13PipeCase]
 	c13Sub    *subCheck[c13Case]
 	c13Enum   *subCheck[c13Case]
 	c13Misuse *subCheck[c13MisuseCase]
@@ -503,12 +675,13 @@ func init() {
 		c13Sub = newSub("C13", "rapid", c13Run)
 		c13Enum = newSub("C13", "enum", c13Run)
 		c13Misuse = newSub("C13", "misuse", c13MisuseRun)
+		c13Pipe = newSub("C13", "pipe", c13PipeRun)
 	})
 }
 
 func TestC13(t *testing.T) {
 	registerAll()
-	st.Rule = "cases = (RCPT sequence up to 4 over 2 addresses with rejections, SetStatus script = sub-multiset of the accepted occurrences in any order with nil/unique-error statuses set before/after the message is read, return value, backend panic before/after the statuses, DATA or BDAT in 1-2 chunks, per-recipient or plain backend, early return, pipelined or not); oracle = pure function of the script; non-trivial = duplicate address OR statuses out of RCPT order OR a strict subset set; distinct = hash of the whole case"
+	st.Rule = "cases = (RCPT sequence up to 4 over 2 addresses with rejections, SetStatus script = sub-multiset of the accepted occurrences in any order with nil/unique-error statuses set before/after the message is read, return value, backend panic before/after the statuses, DATA or BDAT in 1-2 chunks, per-recipient or plain backend, early return, pipelined or not); plus a sequential client (writes the whole message, then reads) over a transport without buffering (net.Pipe semantics) against backends that return before the end of the message; oracle = pure function of the script; non-trivial = duplicate address OR statuses out of RCPT order OR a strict subset set; distinct = hash of the whole case"
 	if !regress(t, "C13") {
 		return
 	}
@@ -518,6 +691,27 @@ func TestC13(t *testing.T) {
 			idx++
 			if mine(idx) && !c13Misuse.one(t, c13MisuseCase{Kind: k, Chunks: ch}) {
 				return
+			}
+		}
+	}
+	// unbuffered transport, sequential client: small complete enumeration
+	for _, per := range []bool{false, true} {
+		for n := 1; n <= 3; n++ {
+			for _, rl := range []int{-1, 0, 16, 100} {
+				for _, bdat := range []bool{false, true} {
+					for _, lines := range []int{1, 40, 3500} {
+						idx++
+						if !mine(idx) {
+							continue
+						}
+						if lines == 3500 && !thorough() && idx%4 != 0 {
+							continue
+						}
+						if !c13Pipe.one(t, c13PipeCase{PerRcpt: per, NRcpt: n, ReadLimit: rl, RetErr: idx%2 == 0, SetFirst: idx%3 != 0, BDAT: bdat, BodyLines: lines}) {
+							return
+						}
+					}
+				}
 			}
 		}
 	}
